@@ -1564,6 +1564,10 @@ def build_cases(tier="quick"):
     ref += rewrap(PROP, c08.literal_before_hash_cases(), "storage-spelling")
     # the state that goes on in place keeps the shared solver: it must be taken from the worklist before its siblings (C02's unit)
     ref += rewrap(PROP, c02.jumpi_cases() + c02.multi_return_cases(), "solver-stays-with-the-running-path")
+    # a transaction starts from the state the previous one left: accounts, counters (the address allocator behind CREATE), aliases (C20's unit)
+    from contracts import c20
+
+    ref += rewrap(PROP, c20.fork_cases(), "transaction-start-state", lambda c: c.unit.endswith("sevm.SEVM.run_message"))
     return stack_cases() + limit_cases() + env_cases() + memory_cases() + halt_cases() + sha3_cases() + returndata_cases() + ext_cases() + deviation_cases() + ref
 
 
